@@ -57,7 +57,7 @@ func genC09Col(rng *rand.Rand, i int) ColSpec {
 	return c
 }
 
-var c09Ints = []int64{0, 1, -1, 2, 7, 1 << 31, -(1 << 31), 1 << 40, 1<<53 - 1, -(1<<53 - 1)}
+var c09Ints = []int64{0, 1, -1, 2, 7, 1 << 31, -(1 << 31), 1 << 40, 1<<53 - 1, -(1<<53 - 1), 1<<53 + 1, -(1<<53 + 1), 1<<62 + 12345, 1<<63 - 1, -1 << 63}
 
 func genC09Atom(rng *rand.Rand, c ColSpec, key bool) Atom {
 	t := c.Type.Key
@@ -166,7 +166,7 @@ func fieldPtrs(db *DB, table string, m model.Model, cols []string) []interface{}
 }
 
 func runC09(r *Run) {
-	r.Rule = "generated tables over the whole supported type space (every atomic type in key and value position, min/max 0..1, 1..1, 0..n, 1..n, 0..3, 1..3, enums, strong/weak references) with run-time struct types; models with empty, one-element and multi-element collections, nil and non-nil optionals, zero values, integers up to 2^53; NewRow -> json.Marshal -> Row.UnmarshalJSON -> GetRowData / CreateModel, with and without a field list, into fresh and into populated models; wrong Go field types and wrong OVS value types; non-trivial = row with at least one non-default column; distinct by (schema, model, field list)"
+	r.Rule = "generated tables over the whole supported type space (every atomic type in key and value position, min/max 0..1, 1..1, 0..n, 1..n, 0..3, 1..3, enums, strong/weak references) with run-time struct types; models with empty, one-element and multi-element collections, nil and non-nil optionals, zero values, integers over the whole 64-bit range; NewRow -> json.Marshal -> Row.UnmarshalJSON -> GetRowData / CreateModel, with and without a field list, into fresh and into populated models; wrong Go field types and wrong OVS value types; non-trivial = row with at least one non-default column; distinct by (schema, model, field list)"
 	n := 1500
 	if r.Tier == "thorough" {
 		n = 25000
